@@ -233,6 +233,20 @@ fn big_docs() -> Vec<(String, Vec<Node>)> {
     let mut root = Node::master(ID_ROOT, ch);
     root.size = SizeEnc::Unknown(1);
     v.push(("Root/unk[23000 x U] (compaction)".to_string(), vec![root]));
+    // long headers (8-byte size fields, 8-byte ids) at every alignment relative to the 64 KiB buffer boundary
+    let mut ch = Vec::new();
+    for i in 0..1500u64 {
+        let mut lb = Node::leaf(ID_LB, Val::B(vec![(i % 251) as u8; (i % 5) as usize]));
+        lb.size = SizeEnc::Width(8);
+        let mut l = Node::master(ID_L, vec![lb]);
+        l.size = SizeEnc::Width(8);
+        let mut mu = Node::leaf(ID_MU, Val::U(i));
+        mu.size = SizeEnc::Width(7);
+        ch.push(Node::master(ID_M, vec![mu, Node::master(ID_N, vec![Node::master(ID_K, vec![l])])]));
+    }
+    let mut root = Node::master(ID_ROOT, ch);
+    root.size = SizeEnc::Unknown(8);
+    v.push(("Root/unk[1500 x M[MU/w7 N[K[L/w8[LB/w8]]]]] (long headers across the buffer boundary)".to_string(), vec![root]));
     v
 }
 
@@ -314,8 +328,8 @@ pub fn run(ctx: &mut Ctx) {
     for (i, (name, doc)) in big_docs().into_iter().enumerate() {
         let (bytes, _lay) = ref_encode(&doc);
         let reference = parse_slice::<V>(&bytes, &strict);
-        for (j, cap) in [None, Some(16), Some(4096), Some(0)].into_iter().enumerate() {
-            if !ctx.mine((i * 4 + j) as u64) {
+        for (j, cap) in [None, Some(16), Some(4096), Some(0), Some(65537)].into_iter().enumerate() {
+            if !ctx.mine((i * 5 + j) as u64) {
                 continue;
             }
             let cfg = strict.clone().with_cap(cap);
